@@ -8,6 +8,8 @@ package main
 import (
 	"fmt"
 	"go/token"
+	"sort"
+	"strings"
 
 	"golang.org/x/tools/go/ssa"
 )
@@ -95,5 +97,78 @@ func checkCarried(w *World, r *Report, rule string, fields []string) {
 	}
 	if !found {
 		r.Unk(rule, "upgrade-install/no-call", w.Pos(outer.Pos()), "upgrade no longer falls back to runInstall")
+	}
+}
+
+// ---- command-line flag bindings ------------------------------------------------------------------------
+
+// flagBindings lists, for every pflag registration in pkg/cmd that stores into a field of a helm struct,
+// "StructType/flag-name" -> field name.
+func flagBindings(w *World) map[string]string {
+	out := map[string]string{}
+	for _, fn := range w.HelmFuncs() {
+		if !strings.HasSuffix(fnPkgPath(fn), "/pkg/cmd") {
+			continue
+		}
+		for _, c := range callInstrs(fn) {
+			f, _ := calleeOf(c.Common())
+			if f == nil || !strings.HasSuffix(fnPkgPath(f), "spf13/pflag") || !strings.Contains(f.Name(), "Var") {
+				continue
+			}
+			args := c.Common().Args
+			if len(args) < 3 {
+				continue
+			}
+			fa, ok := args[1].(*ssa.FieldAddr)
+			if !ok {
+				if mi, isMI := args[1].(*ssa.MakeInterface); isMI { // Var(value, name, usage) with a custom Value wrapping &x.F
+					fa, ok = mi.X.(*ssa.FieldAddr)
+				}
+				if !ok {
+					continue
+				}
+			}
+			name, isC := constString(args[2])
+			if !isC {
+				continue
+			}
+			_, t, fld := fieldNameOf(fa)
+			if t == "" {
+				continue
+			}
+			out[t+"/"+name] = fld
+		}
+	}
+	return out
+}
+
+// FlagRef is reference/flags.txt: the bindings of the reference tree.
+var FlagRef map[string]string
+
+// checkFlagBinding: a command-line flag that the reference tree binds to one of the listed option fields
+// is still bound to that field, and none of the listed fields is bound to a flag that belonged to another.
+func checkFlagBinding(w *World, r *Report, rule string, fields map[string]bool) {
+	if FlagRef == nil {
+		r.Unk(rule, "flags/reference", "-", "reference/flags.txt is missing")
+		return
+	}
+	cur := flagBindings(w)
+	n := 0
+	var keys []string
+	for k := range cur {
+		keys = append(keys, k)
+	}
+	sort.Strings(keys)
+	for _, k := range keys {
+		fld := cur[k]
+		ref, known := FlagRef[k]
+		if !known || (!fields[fld] && !fields[ref]) {
+			continue
+		}
+		n++
+		r.Check(fld == ref, rule, "flag/"+k, "-", "--"+k[strings.Index(k, "/")+1:]+" sets "+ref, "--"+k[strings.Index(k, "/")+1:]+" now sets "+fld+" instead of "+ref+": the option is controlled by the wrong flag")
+	}
+	if n == 0 {
+		r.OKTrivial(rule, "flag/none", "-", "no flag of the reference tree is bound to these options")
 	}
 }
